@@ -34,3 +34,88 @@ func VerifSetLazyCleanExpired(d time.Duration) time.Duration {
 	lazyCleanExpired = d
 	return old
 }
+
+// VerifKey is one engine key produced by an unexported key encoder, with the bounds of the
+// range the data mapping scans or deletes for the collection / table it belongs to (nil if none).
+type VerifKey struct {
+	Name        string
+	Enc         []byte
+	Start, Stop []byte
+}
+
+// VerifEncodeKeys runs the key encoders of the data mapping on one address.
+// table must not contain ':' (the first ':' of a key defines where the table ends).
+func VerifEncodeKeys(table, key, sub []byte, seq int64, score float64) []VerifKey {
+	full := append(append(append([]byte{}, table...), ':'), key...)
+	out := []VerifKey{
+		{Name: "kv", Enc: encodeKVKey(full), Start: encodeDataTableStart(KVType, table), Stop: encodeDataTableEnd(KVType, table)},
+		{Name: "hsize", Enc: hEncodeSizeKey(full)},
+		{Name: "hash", Enc: hEncodeHashKey(table, key, sub), Start: hEncodeStartKey(table, key), Stop: hEncodeStopKey(table, key)},
+		{Name: "lmeta", Enc: lEncodeMetaKey(full)},
+		{Name: "list", Enc: lEncodeListKey(table, key, seq), Start: lEncodeListKey(table, key, listMinSeq), Stop: lEncodeListKey(table, key, listMaxSeq)},
+		{Name: "ssize", Enc: sEncodeSizeKey(full)},
+		{Name: "set", Enc: sEncodeSetKey(table, key, sub), Start: sEncodeStartKey(table, key), Stop: sEncodeStopKey(table, key)},
+		{Name: "zsize", Enc: zEncodeSizeKey(full)},
+		{Name: "zset", Enc: zEncodeSetKey(table, key, sub), Start: zEncodeStartSetKey(table, key), Stop: zEncodeStopSetKey(table, key)},
+		{Name: "zscore", Enc: zEncodeScoreKey(false, false, table, key, sub, score), Start: zEncodeStartKey(table, key), Stop: zEncodeStopKey(table, key)},
+	}
+	return out
+}
+
+// VerifTableRange returns the key range of one table for one element type name of VerifEncodeKeys.
+func VerifTableRange(name string, table []byte) ([]byte, []byte) {
+	var dt byte
+	switch name {
+	case "kv":
+		dt = KVType
+	case "hash":
+		dt = HashType
+	case "list":
+		dt = ListType
+	case "set":
+		dt = SetType
+	case "zset":
+		dt = ZSetType
+	case "zscore":
+		dt = ZScoreType
+	default:
+		return nil, nil
+	}
+	return encodeDataTableStart(dt, table), encodeDataTableEnd(dt, table)
+}
+
+// VerifDecodeKey decodes a key produced by the encoder of that name.
+func VerifDecodeKey(name string, ek []byte) (table, key, sub []byte, seq int64, score float64, err error) {
+	split := func(full []byte, e error) {
+		if e != nil {
+			err = e
+			return
+		}
+		var rk []byte
+		table, rk, err = extractTableFromRedisKey(full)
+		key = rk
+	}
+	switch name {
+	case "kv":
+		split(decodeKVKey(ek))
+	case "hsize":
+		split(hDecodeSizeKey(ek))
+	case "lmeta":
+		split(lDecodeMetaKey(ek))
+	case "ssize":
+		split(sDecodeSizeKey(ek))
+	case "zsize":
+		split(zDecodeSizeKey(ek))
+	case "hash":
+		table, key, sub, err = hDecodeHashKey(ek)
+	case "set":
+		table, key, sub, err = sDecodeSetKey(ek)
+	case "zset":
+		table, key, sub, err = zDecodeSetKey(ek)
+	case "list":
+		table, key, seq, err = lDecodeListKey(ek)
+	case "zscore":
+		table, key, sub, score, err = zDecodeScoreKey(ek)
+	}
+	return
+}
